@@ -248,13 +248,23 @@ def encV (env : Env) : Nat → Ty → Val → Except Err Bytes
 /-! ### `ser.Stream` -/
 
 structure Stream where
-  rest : Bytes                       -- unread input; `remaining` = rest.length (DecodeBytes sets the limit to len(b))
+  rest : Bytes                       -- what the reader still holds
   stack : List (Nat × Nat) := []     -- (pos, size), innermost list first
   kind : Option Kind := none         -- none = -1 ("rearmed")
   size : Nat := 0
   byteval : UInt8 := 0
   kinderr : Option Err := none
+  /-- input limit: `limited = !unlimited`, `remaining = rest.length + phantom`.  DecodeBytes: the limit is len(b), so
+      phantom = 0.  DecodeReader(r, limit): a limit larger than what the reader holds is `phantom > 0` (the size checks
+      pass, the read hits EOF); NewStream(r, 0) on a reader that is not a bytes/strings.Reader: unlimited. -/
+  unlimited : Bool := false
+  phantom : Nat := 0
+  /-- the largest size handed to `make([]byte, size)` by Stream.Bytes so far -/
+  alloc : Nat := 0
 deriving Inhabited
+
+/-- `s.limited && n > s.remaining` -/
+def over (s : Stream) (n : Nat) : Bool := !s.unlimited && decide (n > s.rest.length + s.phantom)
 
 def willRead (n : Nat) (s : Stream) : Option Err × Stream :=
   let s := { s with kind := none }
@@ -263,8 +273,8 @@ def willRead (n : Nat) (s : Stream) : Option Err × Stream :=
     if n > size - pos then (some .elemTooLarge, s)
     else
       let s := { s with stack := (pos + n, size) :: up }
-      if n > s.rest.length then (some .valueTooLarge, s) else (none, s)
-  | [] => if n > s.rest.length then (some .valueTooLarge, s) else (none, s)
+      if over s n then (some .valueTooLarge, s) else (none, { s with phantom := s.phantom - (n - s.rest.length) })
+  | [] => if over s n then (some .valueTooLarge, s) else (none, { s with phantom := s.phantom - (n - s.rest.length) })
 
 def readByte (s : Stream) : Except Err UInt8 × Stream :=
   match willRead 1 s with
@@ -273,10 +283,13 @@ def readByte (s : Stream) : Except Err UInt8 × Stream :=
     | b :: r => (.ok b, { s with rest := r })
     | [] => (.error .eof, s)
 
+/-- on a short read the loop of readFull consumes what there is and reports io.ErrUnexpectedEOF -/
 def readFull (n : Nat) (s : Stream) : Except Err Bytes × Stream :=
   match willRead n s with
   | (some e, s) => (.error e, s)
-  | (none, s) => (.ok (s.rest.take n), { s with rest := s.rest.drop n })
+  | (none, s) =>
+    if n > s.rest.length then (.error .eof, { s with rest := [] })
+    else (.ok (s.rest.take n), { s with rest := s.rest.drop n })
 
 def readUintSz (sz : Nat) (s : Stream) : Except Err Nat × Stream :=
   match sz with
@@ -317,7 +330,7 @@ def atEnd (s : Stream) : Bool :=
 /-- the size checks of Stream.Kind: top level against the input limit, inside a list against the list -/
 def limitErr (s : Stream) (sz : Nat) : Option Err :=
   match s.stack with
-  | [] => if sz > s.rest.length then some .valueTooLarge else none
+  | [] => if over s sz then some .valueTooLarge else none
   | (pos, size) :: _ => if sz > size - pos then some .elemTooLarge else none
 
 /-- Stream.Kind -/
@@ -340,7 +353,8 @@ def sBytes (s : Stream) : Except Err Bytes × Stream :=
   | ((_, _, some e), s) => (.error e, s)
   | ((.byte, _, none), s) => (.ok [s.byteval], { s with kind := none })
   | ((.string, sz, none), s) =>
-    match readFull sz s with
+    -- `b := make([]byte, size)` happens before the read
+    match readFull sz { s with alloc := max s.alloc sz } with
     | (.error e, s) => (.error e, s)
     | (.ok b, s) => if single7 b then (.error .canonSize, s) else (.ok b, s)
   | ((.list, _, none), s) => (.error .expectedString, s)
@@ -423,6 +437,8 @@ def decByteArr (n : Nat) (s : Stream) : DecR :=
     if n < sz then (z, some .tooLong, s)
     else if n > sz then (z, some .tooShort, s)
     else match readFull n s with
+      -- a short read (only possible when the limit exceeds what the reader holds) has already copied what there was
+      | (.error .eof, s') => (.bytes (s.rest.take n ++ List.replicate (n - (s.rest.take n).length) 0), some .eof, s')
       | (.error e, s) => (z, some e, s)
       | (.ok b, s) => if single7 b then (.bytes b, some .canonSize, s) else (.bytes b, none, s)
   | ((.list, _, none), s) => (z, some .expectedString, s)
@@ -632,6 +648,33 @@ def decodeBytes (env : Env) (t : Ty) (pre : Bool) (b : Bytes) : Except Err Val :
     match decV env fuel t s with
     | (_, some e, _) => .error e
     | (v, none, s) => if s.rest.isEmpty then .ok v else .error .moreThanOne
+
+/-- how a reader entry point limits its stream -/
+inductive Limit where
+  | none                -- NewStream(r, 0), Decode(r, …), DecodeReader(r, …, 0) on a reader that is not a bytes/strings.Reader
+  | some (n : Nat)      -- DecodeReader(r, …, n), n > 0
+deriving Repr, Inhabited
+
+/-- the runtime's bound on one allocation (linux/amd64: 2^48); `make([]byte, n)` beyond it panics -/
+def maxAlloc : Nat := 2 ^ 48
+
+/-- Decode / DecodeReader[WithType] on a reader holding `b`: no "more than one value" test; a limit below len(b) cuts the
+    input, a limit above it lets the size checks pass and the reads hit EOF; the result carries the largest buffer size
+    requested (`alloc`).  A request beyond `maxAlloc` is a run-time panic. -/
+def decodeReader (env : Env) (t : Ty) (pre : Bool) (lim : Limit) (b : Bytes) : Except Err Val × Nat :=
+  let s : Stream := match lim with
+    | .none => { rest := b, unlimited := true }
+    | .some n => if n ≤ b.length then { rest := b.take n } else { rest := b, phantom := n - b.length }
+  let fuel := 2 * b.length + 200
+  let (e0, s) := if pre then (match readN 7 s with
+      | (.error e, s) => (some e, s)
+      | (.ok _, s) => (none, s)) else (none, s)
+  match e0 with
+  | some e => (.error e, s.alloc)
+  | none =>
+    match decV env fuel t s with
+    | (_, some e, s) => (if s.alloc > maxAlloc then .error .panic else .error e, s.alloc)
+    | (v, none, s) => (if s.alloc > maxAlloc then .error .panic else .ok v, s.alloc)
 
 /-- EncodeToBytes / EncodeToBytesWithType (`pre` = disfix of the top-level registered type, or []) -/
 def encodeBytes (env : Env) (t : Ty) (pre : Bytes) (v : Val) : Except Err Bytes :=
